@@ -34,8 +34,11 @@ def engine_histories(ctx, n=None):
         cases.append({'seed': r.randint(0, 10**6), 'N': r.choice([12, 20, 33]), 'L': r.choice([2, 3, 4, 5]),
                       'epochs': r.choice([1, 2]), 'acc': r.choice(['rdp', 'prv', 'gdp']),
                       'mode': r.choice(['hooks', 'hooks', 'ghost', 'functorch']), 'bmm': r.choice([0, 0, 1, 2, 3]),
-                      'poisson': r.random() < 0.7, 'sched': r.random() < 0.3 , 'two': r.random() < 0.2,
+                      'poisson': r.random() < 0.7, 'sched': r.random() < 0.3 , 'two': r.random() < 0.35,
                       'q_tiny': r.random() < 0.3})
+    for c in cases:
+        if c['acc'] == 'gdp':
+            c['two'] = False          # the GDP accountant (by design) refuses a second sample rate
     res = vlib.run_impl('engine_hist.py', {'cases': cases}, timeout=3600)['results']
     for c, rr in zip(cases, res):
         ctx.case(c, kind='engine/%s/%s' % (c['mode'], c['acc']), nontrivial=rr.get('n_inner', 0) > 0)
